@@ -10,7 +10,7 @@ def flow_cfg(n_htlcs=1, store='free_absent', amounts=None, **kw):
     specs = []
     for i, a in enumerate(amounts):
         specs.append(HtlcSpec(i, invoice=0, hash=H, amount=a, forward='amount', total=1006000, cltv_expiry=3000 + i, cltv_rel=1500))
-    cfg = dict(htlcs=specs, invoices=[inv], store_init=store, max_parts=1, pay_outcomes=('complete', 'pending', 'failed', 'failed_warning', 'error:210'),
+    cfg = dict(htlcs=specs, invoices=[inv], store_init=store, max_parts=1, pay_outcomes=('complete', 'pending', 'failed', 'failed_warning', 'failed_warning_empty', 'error:210', 'error:none'),
                pending_parts=1, policy=(1000, 5000, 1008), cltv_delta=34, height=100, max_total_parts=2, deliver_in_order=True,
                strict_por=True, rng_free=False)   # a single HTLC never makes two select! branches ready at once: the start index is irrelevant
     cfg.update(kw)
@@ -22,6 +22,9 @@ def standard_configs(tier, crash=True, faults=0, write_faults=0, fault_methods=(
     for store in ('free_absent', 'pending', 'succeeded'):
         cfg, pc = flow_cfg(1, store)
         out.append(('1 htlc, stored=%s' % store, cfg, pc, {}))
+    # restart with two parts of the interrupted attempt still on the node, in any states, failing with different codes
+    cfg, pc = flow_cfg(1, 'pending', pending_parts=2, wait_fail_codes=(203, 204), max_total_parts=3, pay_outcomes=('complete',), parts_can_fail=True)
+    out.append(('1 htlc, stored=pending[2 earlier parts]', cfg, pc, {}))
     # restart with a replayed HTLC that now trips a policy check (blocks were mined / policy changed): still held
     cfg, pc = flow_cfg(1, 'pending')
     cfg['htlcs'][0].cltv_rel = 10
